@@ -84,7 +84,8 @@ class Stats:
 class Path:
     def __init__(self, prefix=(), logic='QF_BV', timeout_ms=None, seed=0):
         if timeout_ms is None:
-            timeout_ms = int(os.environ.get('SYMX_QUERY_TIMEOUT_MS', '20000'))
+            timeout_ms = int(_os.environ.get('SYMX_QUERY_TIMEOUT_MS',
+                                              '20000'))
         self.prefix = list(prefix)
         self.decisions = []
         self.logic = logic
